@@ -16,6 +16,8 @@ inductive Val where
   | int (i : Int)
   | arr (l : List Int)
   | obj (l : List (String × Val))
+  /-- `q:<hex>`: a quoted string, kept as its hex text -/
+  | str (hex : String)
   /-- any other value form (i64:… u64:… f32:… q:… rgb:… or a container holding one): only ever
   offered to unknown fields, which ignore it; an int field offered one is a type error -/
   | other
@@ -28,7 +30,7 @@ structure Item where
 
 def names : List String :=
   ["a", "b", "c", "d", "e", "f", "x", "core", "l", "dd", "both", "g", "bee", "u1", "u2", "inner", "inners", "last", "u", "v", "w",
-   "cores", "zz", "yy", "k1", "k2"]
+   "cores", "zz", "yy", "k1", "k2", "f0", "f1", "f2", "f3", "a0", "a1", "a2", "a3"]
 
 def nameId (k : String) : Option Nat := (names.findIdx? (· == k)).map (· + 0x2d00)
 def resolvable (k : String) : Bool := !(k.startsWith "u") || k == "u"
@@ -113,6 +115,7 @@ def parseVal (fuel : Nat) (s : String) : Option Val :=
           | _ => none) with
         | some l => some (.obj l)
         | none => some .other
+    else if s.startsWith "q:" then some (.str (s.drop 2).toString)
     else match s.toInt? with
       | some i => some (.int i)
       | none => some .other
@@ -176,8 +179,57 @@ def runOne (sid : String) (schema : Schema) (deliver : Schema → Item → Key) 
   | .ok vals => showStruct schema vals
   | .error e => errStr e
 
+/-! ### the generated struct family (harness/src/props/c18_family.rs)
+
+The schema id is `<struct>~<spec>`; `<spec>` = fields `name:kind:default:type:alias:token` joined
+by `/` (kind p|d|t, default n|y|p, type i|o|s|v, alias / token `-` = none).  The spec comes from
+the same generator that wrote the Rust structs, so there is no second table to keep in step. -/
+
+def parseFieldSpec (s : String) : Option (FieldSpec × Char) :=
+  match s.splitOn ":" with
+  | [name, k, d, ty, al, tk] =>
+    let kind? : Option Kind := match k with | "p" => some .plain | "d" => some .duplicated | "t" => some .takeLast | _ => none
+    let dflt? : Option Dflt := match d with | "n" => some .no | "y" => some .yes | "p" => some .path | _ => none
+    match kind?, dflt?, ty.toList with
+    | some kind, some dflt, [c] =>
+      let token? : Option (Option Nat) := if tk == "-" then some none else tk.toNat?.map some
+      token?.map fun token =>
+        ({ name := name, alias := if al == "-" then none else some al, token := token, kind := kind, dflt := dflt,
+           isOption := c == 'o' && kind != .duplicated }, c)
+    | _, _, _ => none
+  | _ => none
+
+def parseSpec (s : String) : Option (List (FieldSpec × Char)) := (s.splitOn "/").mapM parseFieldSpec
+
+/-- rendering of one deserialized value of element / field type `ty` -/
+def famVal (ty : Char) : Val → Except String String
+  | .int i => if ty == 'i' || ty == 'o' then .ok (toString i) else .error "err:other"
+  | .str h => if ty == 's' then .ok s!"s:{h}" else .error "err:other"
+  | .arr l => if ty == 'v' then .ok ("[" ++ ".".intercalate (l.map toString) ++ "]") else .error "err:other"
+  | _ => .error "err:other"
+
+def famShow (f : FieldSpec) (ty : Char) : FieldVal String → String
+  | .val r => r
+  | .vec l => "[" ++ ".".intercalate l ++ "]"
+  | .dflt => match ty with | 'o' => "none" | 's' => "s:-" | 'v' => "[]" | _ => "0"
+  | .dfltPath => match ty with | 's' => "s:64666c74" | 'v' => "[7.7.7]" | _ => "777"
+
+def runFamily (spec : List (FieldSpec × Char)) (deliver : Schema → Item → Key) (items : List Item) : String :=
+  let schema := spec.map (·.1)
+  let tyOf (f : FieldSpec) : Char := match spec.find? (fun p => p.1.name == f.name) with | some p => p.2 | none => 'i'
+  match run schema (fun f v => famVal (tyOf f) v) (items.map fun it => (deliver schema it, it.val)) with
+  | .ok vals => ";".intercalate ((spec.zip vals).map fun (p, v) => s!"{p.1.name}={famShow p.1 p.2 v}")
+  | .error e => errStr e
+
 def handle : Handler
   | ["derive", sid, ps] =>
+    match sid.splitOn "~" with
+    | [_, specTxt] =>
+      match parseSpec specTxt, parsePairs ps with
+      | some spec, some items =>
+        some s!"T:{runFamily spec deliverText items} B:{runFamily spec deliverBin items}"
+      | _, _ => none
+    | _ =>
     match schemaOf sid, parsePairs ps with
     | some schema, some items =>
       some s!"T:{runOne sid schema deliverText items} B:{runOne sid schema deliverBin items}"
